@@ -523,6 +523,17 @@ def _r4_callers(ctx, pkg, rule="R4"):
                             and n.args and isinstance(n.args[0], ast.Name) and n.args[0].id in idxvars:
                         pos.add(i)
     if len(pos) != 1:
+        # by role, with the scan possibly moved into helper methods (put back by pkg.expanded): the element of the returned tuple
+        # that is a list filled only by appending the position counter of an enumerate loop
+        efl = Flow(pkg.expanded("Network", "find_duplicate_reaction"), NF)
+        rv = [simp(f.value) for f in efl.facts if f.kind == "return"]
+        pos = set()
+        if len(rv) == 1 and rv[0][0] == "tuple":
+            for i, e in enumerate(rv[0][1]):
+                apps = [f for f in efl.facts if e[0] == "acc" and f.target == e[1] and f.kind in ("append", "mutate", "store", "augstore", "remove")]
+                if apps and all(f.kind == "append" and f.op == "append" and simp(f.value)[0] == "idx" for f in apps):
+                    pos.add(i)
+    if len(pos) != 1:
         ctx.unrec(rule, "find_duplicate_reaction:position list", (NF, fd.lineno), f"cannot tell which element of the returned tuple is the list of positions ({sorted(pos)})")
         return
     (ipos,) = pos
